@@ -107,6 +107,9 @@ structure Cfg where
   fixReapOrphan : Bool := false
   /-- F-C06-5 repair: the retransmit counters are reset when the handshake completes. -/
   fixHsReset : Bool := false
+  /-- F-C13-3 repair: payload arriving on a socket the application has already closed is answered
+      with an RST and the socket is removed (Linux: "data received after close"). -/
+  fixRstAfterClose : Bool := false
   deriving DecidableEq, Repr, Inhabited
 
 /-- `advertised_window` (tcp.rs:1335). -/
